@@ -2,6 +2,7 @@ package chk
 
 import (
 	"fmt"
+	"go/token"
 	"sort"
 	"strings"
 
@@ -112,11 +113,27 @@ func ruleCLIGuards(p *Prog, l *Ledger, tier string) {
 					continue
 				}
 				for k, a := range c.Call.Args {
-					if !isFlag(a) || k >= len(sc.Params) {
+					if k >= len(sc.Params) {
 						continue
 					}
 					prm := sc.Params[k]
-					for r := range rejectedRelations(sc, func(v ssa.Value) bool { return v == ssa.Value(prm) }) {
+					match := func(v ssa.Value) bool { return v == ssa.Value(prm) }
+					if !isFlag(a) {
+						// the flag handed over by address (the *time.Duration flag.Duration returned): the helper tests *p
+						u, ok := a.(*ssa.UnOp)
+						g, isG := ssa.Value(nil), false
+						if ok {
+							g, isG = u.X.(*ssa.Global)
+						}
+						if !ok || !isG || g.(*ssa.Global).Name() != f {
+							continue
+						}
+						match = func(v ssa.Value) bool {
+							d, ok := v.(*ssa.UnOp)
+							return ok && d.Op == token.MUL && d.X == ssa.Value(prm)
+						}
+					}
+					for r := range rejectedRelations(sc, match) {
 						if !rej[r] {
 							where = FnName(sc) + " (called at " + p.Pos(c.Pos()) + ")"
 						}
